@@ -4,6 +4,7 @@
 package main
 
 import (
+	"reflect"
 	"encoding/json"
 	"fmt"
 	"go/ast"
@@ -141,6 +142,13 @@ func main() {
 	// ---- cache write / load protocol: the calls each function of internal/cache makes, in source order
 	extractCalls(&fc, parseFile(filepath.Join(repo, "internal/cache/cache.go")), "cache", []string{"Write", "WriteE", "Load", "LoadE"})
 	extractCalls(&fc, parseFile(filepath.Join(repo, "pkg/cache/cache.go")), "pkgcache", []string{"Cache"})
+
+	// ---- export document: json tags of every struct that travels, and what MarshalJSON / ActionImport call
+	extractTags(&fc, parseFile(filepath.Join(repo, "internal/common/value.go")), "common")
+	extractTags(&fc, parseFile(filepath.Join(repo, "internal/common/meta.go")), "common")
+	extractTags(&fc, parseFile(filepath.Join(repo, "internal/export/export.go")), "export")
+	extractMethodCalls(&fc, parseFile(filepath.Join(repo, "internal/export/export.go")), "export", []string{"MarshalJSON"})
+	extractCalls(&fc, parseFile(filepath.Join(repo, "defaultActions.go")), "carapace", []string{"ActionImport"})
 
 	// ---- Timeout: capacity of the channel the abandoned goroutine sends on
 	extractTimeout(&fc, parseFile(filepath.Join(repo, "action.go")))
@@ -391,6 +399,94 @@ func extractCalls(fc *facts, f *ast.File, pkg string, funcs []string) {
 	for _, d := range f.Decls {
 		fn, ok := d.(*ast.FuncDecl)
 		if !ok || fn.Body == nil || !want[fn.Name.Name] || fn.Recv != nil {
+			continue
+		}
+		calls := []string{}
+		ast.Inspect(fn.Body, func(n ast.Node) bool {
+			if c, ok := n.(*ast.CallExpr); ok {
+				switch fun := c.Fun.(type) {
+				case *ast.SelectorExpr:
+					if id, ok := fun.X.(*ast.Ident); ok {
+						calls = append(calls, id.Name+"."+fun.Sel.Name)
+					} else {
+						calls = append(calls, "_."+fun.Sel.Name)
+					}
+				case *ast.Ident:
+					calls = append(calls, fun.Name)
+				}
+			}
+			return true
+		})
+		fc.StringLists[pkg+"_"+fn.Name.Name+"_calls"] = calls
+	}
+}
+
+// json tags: for every struct type (named, or anonymous inside a function) the fields in source order as
+// "Name tag" ("Name" alone for an untagged / embedded field)
+func extractTags(fc *facts, f *ast.File, pkg string) {
+	anon := 0
+	fieldsOf := func(st *ast.StructType) []string {
+		out := []string{}
+		for _, fld := range st.Fields.List {
+			tag := ""
+			if fld.Tag != nil {
+				if v, err := strconv.Unquote(fld.Tag.Value); err == nil {
+					tag = reflect.StructTag(v).Get("json")
+				}
+			}
+			names := []string{}
+			for _, n := range fld.Names {
+				names = append(names, n.Name)
+			}
+			if len(names) == 0 {
+				names = []string{"embedded:" + exprString(fld.Type)}
+			}
+			for _, n := range names {
+				if tag != "" {
+					out = append(out, n+" "+tag)
+				} else {
+					out = append(out, n)
+				}
+			}
+		}
+		return out
+	}
+	ast.Inspect(f, func(n ast.Node) bool {
+		switch t := n.(type) {
+		case *ast.TypeSpec:
+			if st, ok := t.Type.(*ast.StructType); ok {
+				fc.StringLists["json_tags_"+pkg+"_"+t.Name.Name] = fieldsOf(st)
+				return false
+			}
+		case *ast.StructType:
+			anon++
+			fc.StringLists[fmt.Sprintf("json_tags_%s_anon%d", pkg, anon)] = fieldsOf(t)
+		}
+		return true
+	})
+}
+
+func exprString(e ast.Expr) string {
+	switch t := e.(type) {
+	case *ast.Ident:
+		return t.Name
+	case *ast.SelectorExpr:
+		return exprString(t.X) + "." + t.Sel.Name
+	case *ast.StarExpr:
+		return "*" + exprString(t.X)
+	}
+	return "?"
+}
+
+// like extractCalls, for methods
+func extractMethodCalls(fc *facts, f *ast.File, pkg string, funcs []string) {
+	want := map[string]bool{}
+	for _, n := range funcs {
+		want[n] = true
+	}
+	for _, d := range f.Decls {
+		fn, ok := d.(*ast.FuncDecl)
+		if !ok || fn.Body == nil || !want[fn.Name.Name] || fn.Recv == nil {
 			continue
 		}
 		calls := []string{}
